@@ -242,7 +242,8 @@ SAMPLE = {"int": "7", "length": "3", "float": "1.5", "char": "A", "bool": "Y", "
 
 def sample_value(f, rng=None):
     ty = f["type"].upper()
-    vals = [v for v in f["vals"] if not v[2]]
+    fam0 = TYPE_FAMILY.get(ty)
+    vals = [v for v in f["vals"] if not v[2] and (fam0 not in ("char", "bool") or len(v[0]) == 1)]
     if vals and not any(v[2] for v in f["vals"]):
         v = vals[rng.randrange(len(vals))][0] if rng else vals[0][0]
         if v and "\x01" not in v and not v.startswith("-"):   # negative int text: UB in fast_atoi (another property's finding)
@@ -468,7 +469,7 @@ def build_schema(src, t):
         res = ("fail", tok)
     else:
         try:
-            objs = B.compile_many(cpps, "asan", extra=["-I" + d, "-O0"], extra_hash=d)
+            objs = B.compile_many(cpps, "asan", extra=["-I" + d, "-O0", "-g0"], extra_hash=d)
             hsrc = os.path.join(B.VERIF, "harness", "h_c13.cpp")
             hh = B.sha(B.read(os.path.join(B.VERIF, "harness", "hcommon.hpp")))
             hobj = B.compile_obj(hsrc, "asan", extra=["-I" + os.path.join(B.VERIF, "harness")], extra_hash=hh)
